@@ -171,7 +171,7 @@ class C02(Prop):
                    'projections are passed to calculate_many_marginals as tuples (the method keys its answer dict by the projection)',
                    'krondot matrices have between 1 and 3 rows and are dense numpy arrays',
                    'float comparison with rtol 1e-7 and atol 1e-9*total (times the row-sum norms of the matrices for krondot)']
-    quick_budget_s = 80
+    quick_budget_s = 60
     thorough_budget_s = 1500
     exhaustive = {'quick': False, 'thorough': False}
 
